@@ -4,10 +4,7 @@ package queuebatch
 
 import (
 	"context"
-	"fmt"
 	"os"
-	"sort"
-	"sync"
 	"sync/atomic"
 	"testing"
 	"testing/synctest"
@@ -27,10 +24,51 @@ type vPSizer struct{}
 
 func (vPSizer) Sizeof(v uint64) int64 { return int64(v % 1000) }
 
-// TestVerifC02Persistent: the real persistentQueue (mock storage extension) in a synctest bubble, run to
-// quiescence after every label; the persistent-queue clauses of the property are checked directly on what it
-// shows (monitor only: FIFO / exactly-once, 0 <= Size <= cap, Size == 0 once everything finished, refusal
-// exactly when Size+el > cap, never blocked while empty, cancelled producers return).
+// vNewPersistentRun wires a real persistentQueue (mock storage extension, fresh storage) into the script runner.
+func vNewPersistentRun(out *vOut, capacity int64, block, _, reqSized bool) *vQRun {
+	var sizer request.Sizer[uint64] = vPSizer{}
+	if reqSized {
+		sizer = request.RequestsSizer[uint64]{}
+	}
+	pq := newPersistentQueue[uint64](persistentQueueSettings[uint64]{
+		sizer: sizer, capacity: capacity, blockOnOverflow: block, signal: pipeline.SignalTraces, storageID: component.ID{},
+		encoding: uint64Encoding{}, id: component.NewID(exportertest.NopType), telemetry: componenttest.NewNopTelemetrySettings(),
+	}).(*persistentQueue[uint64])
+	if err := pq.Start(context.Background(), hosttest.NewHost(map[component.ID]component.Component{{}: storagetest.NewMockStorageExtension(nil)})); err != nil {
+		panic(err)
+	}
+	return &vQRun{
+		out: out,
+		offerFn: func(ctx context.Context, id int, size int64) error {
+			return pq.Offer(ctx, uint64(id)*1000+uint64(size))
+		},
+		readFn: func() (int, Done, bool) {
+			_, v, done, ok := pq.Read(context.Background())
+			return int(v / 1000), done, ok
+		},
+		sizeFn: pq.Size,
+		qidsFn: func() []int {
+			var ids []int
+			pq.mu.Lock()
+			for i := pq.readIndex; i < pq.writeIndex; i++ {
+				buf, err := pq.client.Get(context.Background(), getItemKey(i))
+				if err != nil || len(buf) < 8 {
+					ids = append(ids, -1)
+					continue
+				}
+				v, _ := uint64Encoding{}.Unmarshal(buf)
+				ids = append(ids, int(v/1000))
+			}
+			pq.mu.Unlock()
+			return ids
+		},
+		shutdownFn: func() { _ = pq.Shutdown(context.Background()) },
+		prods:      map[int]*vQProd{}, cons: map[int]*vQCons{}, dones: map[int]Done{}, seen: map[int]bool{},
+	}
+}
+
+// TestVerifC02Persistent: the real persistentQueue in a synctest bubble, same script runner and observation
+// format as the memory queue; diffed against the Lean LTS `pfire` and judged by the same oracle (persistent clauses).
 func TestVerifC02Persistent(t *testing.T) {
 	out := vOpen(t)
 	defer out.Close()
@@ -58,298 +96,10 @@ func TestVerifC02Persistent(t *testing.T) {
 	}()
 	synctest.Test(t, func(t *testing.T) {
 		for _, c := range vCases(n) {
-			vPersistentCase(t, out, c)
+			vQueueCase(out, c, true, vNewPersistentRun)
 			out.Flush()
 			progress.Add(1)
 		}
 	})
 	close(stop)
-}
-
-func vPersistentCase(t *testing.T, out *vOut, c int) {
-	rnd := vRand(c)
-	capacity := int64(1 + rnd.IntN(10))
-	block := rnd.IntN(3) != 0
-	reqSized := rnd.IntN(4) == 0
-	out.Linef("case %d cap=%d block=%d requests_sizer=%d", c, capacity, vB(block), vB(reqSized))
-	var sizer request.Sizer[uint64] = vPSizer{}
-	if reqSized {
-		sizer = request.RequestsSizer[uint64]{}
-	}
-	pq := newPersistentQueue[uint64](persistentQueueSettings[uint64]{
-		sizer: sizer, capacity: capacity, blockOnOverflow: block, signal: pipeline.SignalTraces, storageID: component.ID{},
-		encoding: uint64Encoding{}, id: component.NewID(exportertest.NopType), telemetry: componenttest.NewNopTelemetrySettings(),
-	}).(*persistentQueue[uint64])
-	if err := pq.Start(context.Background(), hosttest.NewHost(map[component.ID]component.Component{{}: storagetest.NewMockStorageExtension(nil)})); err != nil {
-		out.Linef("viol sig=C02/harness/persistent-start %s", vHex(err.Error()))
-		out.Linef("end")
-		return
-	}
-	sizeOf := func(el int64) int64 {
-		if reqSized {
-			return 1
-		}
-		return el
-	}
-	type prod struct {
-		cancel context.CancelFunc
-		ret    bool
-		res    string
-		canc   bool
-		el     int64
-		acc    bool
-	}
-	var mu sync.Mutex
-	prods := map[int]*prod{}
-	var fifo []int           // accepted, not handed yet (in acceptance order)
-	grp := map[int]int{}     // label index at which the id was accepted (order inside one label is not observable)
-	labelIdx := 0
-	inflight := map[int]Done{} // handed, not finished
-	var inflightIDs []int
-	consBlocked := 0
-	var got []int // ids returned by Read since the last check
-	stopped := 0
-	viol := func(sig, f string, a ...any) { out.Linef("viol sig=%s %s", sig, fmt.Sprintf(f, a...)) }
-	spaceBlocked := false
-	check := func(label string, sizeBefore int64, offered int) {
-		synctest.Wait()
-		mu.Lock()
-		defer mu.Unlock()
-		out.Linef("tr %s", label)
-		labelIdx++
-		// acceptance is observed when Offer returns nil (at most one per label in run-to-quiescence mode, in order)
-		var ids []int
-		for p := range prods {
-			ids = append(ids, p)
-		}
-		sort.Ints(ids)
-		for _, p := range ids {
-			x := prods[p]
-			if x.ret && x.res == "nil" && !x.acc {
-				x.acc = true
-				fifo = append(fifo, p)
-				grp[p] = labelIdx
-			}
-		}
-		for _, id := range got {
-			pos := -1
-			for i, f := range fifo {
-				if f == id {
-					pos = i
-					break
-				}
-			}
-			ok := pos >= 0
-			for i := 0; ok && i < pos; i++ {
-				if grp[fifo[i]] != grp[id] {
-					ok = false
-				}
-			}
-			if !ok {
-				viol("C02/persistent/fifo-order", "handed %d expected-queue %v after %s", id, fifo, label)
-			}
-			if pos >= 0 {
-				fifo = append(fifo[:pos:pos], fifo[pos+1:]...)
-			}
-			inflightIDs = append(inflightIDs, id)
-		}
-		got = nil
-		size := pq.Size()
-		if size < 0 || size > capacity {
-			viol("C02/persistent/size-out-of-bounds", "size=%d cap=%d after %s", size, capacity, label)
-		}
-		if len(fifo) == 0 && len(inflightIDs) == 0 && size != 0 {
-			viol("C02/persistent/size-not-zero-when-all-finished", "size=%d after %s", size, label)
-		}
-		if offered >= 0 {
-			x := prods[offered]
-			el := sizeOf(x.el)
-			wantFull := !block && sizeBefore+el > capacity
-			if (x.ret && x.res == "full") != wantFull {
-				viol("C02/persistent/refusal-not-exact", "p=%d el=%d size-before=%d cap=%d got ret=%v %s", offered, el, sizeBefore, capacity, x.ret, x.res)
-			}
-		}
-		for _, p := range ids {
-			x := prods[p]
-			if !x.ret {
-				spaceBlocked = true
-				if x.canc {
-					viol("C02/persistent/cancelled-still-blocked", "p=%d after %s", p, label)
-				}
-				// "empty" for the persistent queue = nothing queued and nothing in flight (its Size() is reset to 0
-				// whenever the last queued item is read, while items are still in flight)
-				if len(fifo) == 0 && len(inflightIDs) == 0 {
-					over := -1
-					for _, q := range ids {
-						if y := prods[q]; !y.ret && sizeOf(y.el) > capacity {
-							over = q
-						}
-					}
-					switch {
-					case sizeOf(x.el) > capacity:
-						viol("C02/persistent/oversize-request-blocks-forever", "p=%d el=%d cap=%d: blocked while the queue is empty (no errSizeTooLarge guard in putInternal) after %s", p, sizeOf(x.el), capacity, label)
-					case over >= 0:
-						viol("C02/persistent/oversize-request-blocks-forever", "victim p=%d el=%d left blocked while the queue is empty: its wake-ups were consumed by oversize waiter %d, after %s", p, sizeOf(x.el), over, label)
-					default:
-						viol("C02/persistent/blocked-while-empty", "p=%d el=%d after %s", p, sizeOf(x.el), label)
-					}
-				}
-			}
-			if x.ret && x.res != "nil" && x.acc {
-				viol("C02/persistent/refused-but-enqueued", "p=%d", p)
-			}
-		}
-	}
-	offer := func(p int, el int64, preCancel bool) {
-		ctx, cancel := context.WithCancel(context.Background())
-		x := &prod{cancel: cancel, el: el}
-		prods[p] = x
-		if preCancel {
-			x.canc = true
-			cancel()
-		}
-		before := pq.Size()
-		go func() {
-			err := pq.Offer(ctx, uint64(p)*1000+uint64(el))
-			mu.Lock()
-			x.ret, x.res = true, vErrStr(err)
-			mu.Unlock()
-		}()
-		check(fmt.Sprintf("offer %d %d pre=%d", p, el, vB(preCancel)), before, p)
-	}
-	read := func() {
-		mu.Lock()
-		consBlocked++
-		mu.Unlock()
-		go func() {
-			_, v, done, ok := pq.Read(context.Background())
-			mu.Lock()
-			consBlocked--
-			if ok {
-				id := int(v / 1000)
-				got = append(got, id)
-				inflight[id] = done
-			} else {
-				stopped++
-			}
-			mu.Unlock()
-		}()
-		check("read", 0, -1)
-	}
-	finish := func(id int, e int64) {
-		d := inflight[id]
-		delete(inflight, id)
-		for i, f := range inflightIDs {
-			if f == id {
-				inflightIDs = append(inflightIDs[:i:i], inflightIDs[i+1:]...)
-				break
-			}
-		}
-		var err error
-		if e != 0 {
-			err = vErr(e)
-		}
-		d.OnDone(err)
-		check(fmt.Sprintf("done %d %d", id, e), 0, -1)
-	}
-	blocked := func() []int {
-		mu.Lock()
-		defer mu.Unlock()
-		var b []int
-		for p, x := range prods {
-			if !x.ret {
-				b = append(b, p)
-			}
-		}
-		sort.Ints(b)
-		return b
-	}
-	nextP := 0
-	maxP := 3 + rnd.IntN(8)
-	steps := 5 + rnd.IntN(50)
-	for k := 0; k < steps; k++ {
-		var cands []string
-		if nextP < maxP {
-			cands = append(cands, "offer", "offer", "offer")
-		}
-		bp := blocked()
-		for range bp {
-			cands = append(cands, "cancel")
-		}
-		if consBlocked < 2 {
-			cands = append(cands, "read", "read")
-		}
-		for range inflightIDs {
-			cands = append(cands, "done", "done")
-		}
-		if len(cands) == 0 {
-			break
-		}
-		switch cands[rnd.IntN(len(cands))] {
-		case "offer":
-			var el int64
-			switch r := rnd.IntN(20); {
-			case r == 0:
-				el = 0
-			case r == 1:
-				el = capacity + int64(1+rnd.IntN(3))
-			case r < 8:
-				el = capacity - int64(rnd.IntN(2))
-			default:
-				el = int64(1 + rnd.IntN(int(capacity)))
-			}
-			offer(nextP, el, rnd.IntN(12) == 0)
-			nextP++
-		case "cancel":
-			var open []int
-			for _, p := range bp {
-				if !prods[p].canc {
-					open = append(open, p)
-				}
-			}
-			if len(open) > 0 {
-				p := open[rnd.IntN(len(open))]
-				prods[p].canc = true
-				prods[p].cancel()
-				check(fmt.Sprintf("cancel %d", p), 0, -1)
-			}
-		case "read":
-			read()
-		case "done":
-			finish(inflightIDs[rnd.IntN(len(inflightIDs))], int64(rnd.IntN(3)))
-		}
-	}
-	// drain
-	for k := 0; k < 400; k++ {
-		if len(inflightIDs) > 0 {
-			finish(inflightIDs[0], 0)
-			continue
-		}
-		if len(fifo) > 0 && consBlocked == 0 {
-			read()
-			continue
-		}
-		if bp := blocked(); len(bp) > 0 && len(fifo) == 0 {
-			p := bp[0]
-			if prods[p].canc {
-				break
-			}
-			prods[p].canc = true
-			prods[p].cancel()
-			check(fmt.Sprintf("cancel %d", p), 0, -1)
-			continue
-		}
-		break
-	}
-	for _, x := range prods {
-		x.cancel()
-	}
-	_ = pq.Shutdown(context.Background())
-	synctest.Wait()
-	if spaceBlocked {
-		out.Linef("nt")
-	}
-	out.Linef("stat persistent_producers %d", nextP)
-	out.Linef("stat persistent_blocked_for_space %d", vB(spaceBlocked))
-	out.Linef("end")
 }
